@@ -1,18 +1,923 @@
 package main
 
-// Executable replays (generated in-package Go tests run through `go test -overlay`).
-// Filled in by replaygen.go for the obligation classes it supports.
+// Executable replays: a refuted obligation's model is turned into an in-package Go
+// test that builds the inputs, runs the real function and evaluates the violated
+// contract clause on the concrete result.  The test is injected with
+// `go test -overlay` (nothing is written into the repository).
+//
+// Supported: functions without type parameters whose inputs are built from
+// integers, booleans, slices, arrays, structs and pointers to those; obligations
+// that are `ensures` clauses (the clause is evaluated by the generated clause
+// function with an executable prelude: quantifiers range over a finite candidate
+// set, so only clauses whose universal quantifiers occur positively are accepted)
+// and no-panic obligations (index, slice bounds, nil, division: the replay expects
+// the real code to panic).  Everything else has no executable replay and is
+// reported with `no-failing-input-found`.
 
-type goReplay struct{}
+import (
+	"bytes"
+	"encoding/json"
+	"fmt"
+	"go/ast"
+	"go/parser"
+	"go/printer"
+	"go/token"
+	"go/types"
+	"math/big"
+	"os"
+	"os/exec"
+	"path/filepath"
+	"regexp"
+	"sort"
+	"strings"
+	"time"
+)
 
-func (g *goReplay) run(rec map[string]interface{}) bool { return false }
+type goReplay struct {
+	repo, verif string
+}
 
-func buildGoReplay(e *Engine, verif, prop string, r *FuncResult, o *Obl, rec map[string]interface{}) *goReplay {
+func (g *goReplay) run(rec map[string]interface{}) bool {
+	out, failed := runGoReplay(g.repo, g.verif, rec)
+	rec["replay_output"] = out
+	return failed
+}
+
+const rpPrelude = `
+// ---- executable contract prelude (replay) ----
+var _ = time.Now
+var rpDomain []int64
+
+func gcNow() time.Time { panic("govc-replay-unsupported: gcNow") }
+func gcOld[T any](x T) T { return x }
+func gcIte[T any](c bool, a, b T) T { if c { return a }; return b }
+func gcImplies(a, b bool) bool { return !a || b }
+func rpEach[T any](f func(T) bool, all bool) bool {
+	var z T
+	try := func(v int64) (stop bool) {
+		var x any
+		switch any(z).(type) {
+		case int: x = int(v)
+		case int8: x = int8(v)
+		case int16: x = int16(v)
+		case int32: x = int32(v)
+		case int64: x = int64(v)
+		case uint: x = uint(v)
+		case uint8: x = uint8(v)
+		case uint16: x = uint16(v)
+		case uint32: x = uint32(v)
+		case uint64: x = uint64(v)
+		case uintptr: x = uintptr(v)
+		default: panic("govc-replay-unsupported: quantifier over a non-integer type")
+		}
+		return f(x.(T)) != all
+	}
+	for _, v := range rpDomain {
+		if try(v) { return !all }
+	}
+	return all
+}
+func gcForall[T any](f func(T) bool) bool { return rpEach(f, true) }
+func gcExists[T any](f func(T) bool) bool { return rpEach(f, false) }
+func gcAllocated[T any](x T) bool { panic("govc-replay-unsupported: gcAllocated") }
+func gcFresh[T any](x T) bool { panic("govc-replay-unsupported: gcFresh") }
+func gcSameRef[T any](a, b T) bool { panic("govc-replay-unsupported: gcSameRef") }
+func gcSliceAt[T any](a, b []T, lo int) bool { panic("govc-replay-unsupported: gcSliceAt") }
+func gcTail[T any](ch chan T) int { panic("govc-replay-unsupported: channel ghost") }
+func gcHead[T any](ch chan T) int { panic("govc-replay-unsupported: channel ghost") }
+func gcAt[T any](ch chan T, pos int) T { panic("govc-replay-unsupported: channel ghost") }
+func gcClosed[T any](ch chan T) bool { panic("govc-replay-unsupported: channel ghost") }
+func gcAwaited[T any](ch chan T) bool { panic("govc-replay-unsupported: channel ghost") }
+func gcCap[T any](ch chan T) int { return cap(ch) }
+func gcChan[T any](ch chan T) any { return ch }
+func gcCalls[F any](f F) int { panic("govc-replay-unsupported: callback ghost") }
+func gcCalledWith[F any, A any](f F, a A) int { panic("govc-replay-unsupported: callback ghost") }
+func gcCallbacks(f any) any { return f }
+func gcFst[A, B any](a A, b B) A { return a }
+func gcSnd[A, B any](a A, b B) B { return b }
+func gcSum[K comparable](m map[K]int64) int64 { var s int64; for _, v := range m { s += v }; return s }
+func gcCard[K comparable, V any](m map[K]V) int { return len(m) }
+func gcHas[K comparable, V any](m map[K]V, k K) bool { _, ok := m[k]; return ok }
+func gcSameArray[T any](a, b []T) bool { panic("govc-replay-unsupported: gcSameArray") }
+func gcSameStorage[T any](a, b []T) bool { panic("govc-replay-unsupported: gcSameStorage") }
+func gcWithin[T any](a, b []T) bool { panic("govc-replay-unsupported: gcWithin") }
+`
+
+var reScriptPath = regexp.MustCompile(`script: (\S+)`)
+
+// ---- model queries ------------------------------------------------------------------
+
+type rpModel struct {
+	base  string // script without check-sat / get-value
+	decl  map[string]bool
+	extra []string // declarations and pinned facts added so far
+	log   []string
+}
+
+func newRpModel(script string, qf bool) *rpModel {
+	if qf {
+		script = qfVariant(script)
+		script = strings.Replace(script, "(check-sat-using", "; (check-sat-using", 1)
+	}
+	var keep []string
+	decl := map[string]bool{}
+	for _, l := range strings.Split(script, "\n") {
+		if strings.HasPrefix(l, "(check-sat") || strings.HasPrefix(l, "(get-value") || strings.HasPrefix(l, "(get-model") {
+			continue
+		}
+		if strings.HasPrefix(l, "(declare-const ") || strings.HasPrefix(l, "(declare-fun ") {
+			rest := l[strings.Index(l, " ")+1:]
+			var sym string
+			if strings.HasPrefix(rest, "|") {
+				sym = rest[:strings.Index(rest[1:], "|")+2]
+			} else {
+				sym = rest[:strings.IndexAny(rest, " )")]
+			}
+			decl[sym] = true
+		}
+		keep = append(keep, l)
+	}
+	return &rpModel{base: strings.Join(keep, "\n"), decl: decl}
+}
+
+func (m *rpModel) declare(sym, sort string) {
+	if !m.decl[sym] {
+		m.decl[sym] = true
+		m.extra = append(m.extra, fmt.Sprintf("(declare-const %s %s)", sym, sort))
+	}
+}
+
+// get evaluates terms in a model of the script plus everything pinned so far, and
+// pins the answers so that later queries see the same model.
+func (m *rpModel) get(terms []string, tryAsserts ...string) ([]string, bool) {
+	if len(terms) == 0 {
+		return nil, true
+	}
+	dir, _ := os.MkdirTemp("", "govc-rp")
+	defer os.RemoveAll(dir)
+	f := filepath.Join(dir, "q.smt2")
+	src := m.base + "\n" + strings.Join(m.extra, "\n") + "\n" + strings.Join(tryAsserts, "\n") + "\n(check-sat)\n(get-value (" + strings.Join(terms, " ") + "))\n"
+	os.WriteFile(f, []byte(src), 0o644)
+	out, _ := exec.Command("z3-new", "-T:30", f).CombinedOutput()
+	s := string(out)
+	if !strings.HasPrefix(strings.TrimSpace(s), "sat") {
+		m.log = append(m.log, "query not sat: "+firstLines(s, 2))
+		return nil, false
+	}
+	body := strings.TrimSpace(s[strings.Index(s, "sat")+3:])
+	root := parseSx(body)
+	if root == nil || len(root.kids) != len(terms) {
+		m.log = append(m.log, "could not parse get-value output: "+firstLines(body, 2))
+		return nil, false
+	}
+	vals := make([]string, len(terms))
+	for i, k := range root.kids {
+		if len(k.kids) != 2 {
+			return nil, false
+		}
+		vals[i] = body[k.kids[1].s:k.kids[1].e]
+		if !strings.Contains(vals[i], "lambda") && !strings.Contains(vals[i], "as-array") && !strings.Contains(vals[i], "as const") && !strings.Contains(vals[i], "store") {
+			m.extra = append(m.extra, fmt.Sprintf("(assert (= %s %s))", terms[i], vals[i]))
+		}
+	}
+	m.extra = append(m.extra, tryAsserts...)
+	return vals, true
+}
+
+func smtInt(v string) (*big.Int, bool) {
+	v = strings.TrimSpace(v)
+	switch {
+	case strings.HasPrefix(v, "#x"):
+		n, ok := new(big.Int).SetString(v[2:], 16)
+		return n, ok
+	case strings.HasPrefix(v, "#b"):
+		n, ok := new(big.Int).SetString(v[2:], 2)
+		return n, ok
+	case strings.HasPrefix(v, "(_ bv"):
+		f := strings.Fields(v[5:])
+		n, ok := new(big.Int).SetString(f[0], 10)
+		return n, ok
+	case strings.HasPrefix(v, "(- "):
+		n, ok := new(big.Int).SetString(strings.TrimSuffix(strings.TrimSpace(v[3:]), ")"), 10)
+		if ok {
+			n.Neg(n)
+		}
+		return n, ok
+	}
+	n, ok := new(big.Int).SetString(v, 10)
+	return n, ok
+}
+
+// ---- building Go values from the model --------------------------------------------
+
+type rpBuilder struct {
+	e      *Engine
+	m      *rpModel
+	pkg    *types.Package
+	stmts  []string
+	ptrs   map[string]string // typekey@ref -> variable
+	backs  map[string]string // elem typekey@base -> backing variable
+	filled map[string]bool
+	n      int
+	bad    string
+	dom    map[int64]bool
+}
+
+const rpBackLen = 4096
+
+func (b *rpBuilder) fail(f string, a ...interface{}) string {
+	if b.bad == "" {
+		b.bad = fmt.Sprintf(f, a...)
+	}
+	return "nil"
+}
+
+func (b *rpBuilder) qual(p *types.Package) string {
+	if p == b.pkg {
+		return ""
+	}
+	return p.Name()
+}
+
+func (b *rpBuilder) typeStr(t types.Type) string { return types.TypeString(t, b.qual) }
+
+func (b *rpBuilder) note(v *big.Int) {
+	if v.IsInt64() {
+		x := v.Int64()
+		for d := int64(-1); d <= 1; d++ {
+			b.dom[x+d] = true
+		}
+	}
+}
+
+func entrySym(space byte, tk string, leaf int) string {
+	if space == 'O' {
+		return quoteSym(objHeapName(tk, leaf) + "@0")
+	}
+	return quoteSym(elemHeapName(tk, leaf) + "@0")
+}
+
+func foreignOpaque(t types.Type, pkg *types.Package) bool {
+	n, ok := t.(*types.Named)
+	if !ok || n.Obj().Pkg() == nil || n.Obj().Pkg() == pkg {
+		return false
+	}
+	st, ok := n.Underlying().(*types.Struct)
+	if !ok {
+		return false
+	}
+	for i := 0; i < st.NumFields(); i++ {
+		if !st.Field(i).Exported() {
+			return true
+		}
+	}
+	return false
+}
+
+// value returns a Go expression for the value of type t whose leaves are the given SMT terms.
+func (b *rpBuilder) value(t types.Type, leaves []string, depth int) string {
+	if b.bad != "" {
+		return "nil"
+	}
+	ls := b.e.layoutOf(t).L
+	if len(ls) != len(leaves) {
+		return b.fail("layout mismatch for %s", t)
+	}
+	if foreignOpaque(t, b.pkg) {
+		return b.typeStr(t) + "{}"
+	}
+	switch u := t.Underlying().(type) {
+	case *types.Basic:
+		vals, ok := b.m.get(leaves)
+		if !ok {
+			return b.fail("no model value for %s", leaves[0])
+		}
+		switch {
+		case u.Info()&types.IsBoolean != 0:
+			return b.typeStr(t) + "(" + vals[0] + ")"
+		case u.Info()&types.IsInteger != 0:
+			n, ok := smtInt(vals[0])
+			if !ok {
+				return b.fail("cannot read integer %q", vals[0])
+			}
+			if ls[0].Signed && n.Bit(ls[0].W-1) == 1 {
+				n.Sub(n, new(big.Int).Lsh(big.NewInt(1), uint(ls[0].W)))
+			}
+			b.note(n)
+			if u.Kind() == types.Int64 && n.Cmp(big.NewInt(-1<<63)) == 0 || u.Kind() == types.Int && n.Cmp(big.NewInt(-1<<63)) == 0 {
+				return b.typeStr(t) + "(-1 << 63)"
+			}
+			return b.typeStr(t) + "(" + n.String() + ")"
+		case u.Kind() == types.String:
+			return b.typeStr(t) + `("")`
+		case u.Info()&types.IsFloat != 0:
+			return b.typeStr(t) + "(0)"
+		case u.Kind() == types.UnsafePointer:
+			return "nil"
+		}
+		return b.fail("unsupported basic type %s", t)
+	case *types.Pointer:
+		vals, ok := b.m.get(leaves)
+		if !ok {
+			return b.fail("no model value for %s", leaves[0])
+		}
+		ref, _ := smtInt(vals[0])
+		if ref == nil || ref.Sign() == 0 {
+			return "(" + b.typeStr(t) + ")(nil)"
+		}
+		et := u.Elem()
+		tk := typeKey(et)
+		key := tk + "@" + ref.String()
+		if v, ok := b.ptrs[key]; ok {
+			return v
+		}
+		if foreignOpaque(et, b.pkg) {
+			return "new(" + b.typeStr(et) + ")"
+		}
+		b.n++
+		v := fmt.Sprintf("p%d", b.n)
+		b.ptrs[key] = v
+		b.stmts = append(b.stmts, fmt.Sprintf("%s := new(%s)", v, b.typeStr(et)))
+		if depth <= 0 {
+			return v
+		}
+		els := b.e.layoutOf(et).L
+		var sub []string
+		for j, li := range els {
+			sym := entrySym('O', tk, j)
+			b.m.declare(sym, "(Array Int "+li.Sort+")")
+			sub = append(sub, fmt.Sprintf("(select %s %s)", sym, ref.String()))
+		}
+		val := b.value(et, sub, depth-1)
+		b.stmts = append(b.stmts, fmt.Sprintf("*%s = %s", v, val))
+		return v
+	case *types.Slice:
+		vals, ok := b.m.get(leaves)
+		if !ok {
+			return b.fail("no model value for %s", leaves[0])
+		}
+		base, _ := smtInt(vals[0])
+		off, _ := smtInt(vals[1])
+		ln, _ := smtInt(vals[2])
+		cp, _ := smtInt(vals[3])
+		if base == nil || off == nil || ln == nil || cp == nil {
+			return b.fail("cannot read slice header")
+		}
+		b.note(ln)
+		if ln.Sign() == 0 && (base.Sign() == 0 || cp.Sign() == 0) {
+			return "(" + b.typeStr(t) + ")(nil)"
+		}
+		if !ln.IsInt64() || !off.IsInt64() || ln.Int64() > 512 || off.Int64()+ln.Int64() > rpBackLen {
+			return b.fail("model needs a slice of length %s at offset %s (no small model)", ln, off)
+		}
+		et := u.Elem()
+		tk := typeKey(et)
+		key := tk + "@" + base.String()
+		bk, ok := b.backs[key]
+		if !ok {
+			b.n++
+			bk = fmt.Sprintf("bk%d", b.n)
+			b.backs[key] = bk
+			b.stmts = append(b.stmts, fmt.Sprintf("%s := make([]%s, %d)", bk, b.typeStr(et), rpBackLen))
+		}
+		o, n := off.Int64(), ln.Int64()
+		c := int64(rpBackLen) - o
+		if cp.IsInt64() && cp.Int64() < c {
+			c = cp.Int64()
+		}
+		els := b.e.layoutOf(et).L
+		for i := int64(0); i < n; i++ {
+			fk := fmt.Sprintf("%s[%d]", bk, o+i)
+			if b.filled[fk] {
+				continue
+			}
+			b.filled[fk] = true
+			var sub []string
+			for j, li := range els {
+				sym := entrySym('E', tk, j)
+				b.m.declare(sym, "(Array Int (Array (_ BitVec 64) "+li.Sort+"))")
+				sub = append(sub, fmt.Sprintf("(select (select %s %s) (_ bv%d 64))", sym, base.String(), o+i))
+			}
+			val := b.value(et, sub, depth-1)
+			b.stmts = append(b.stmts, fmt.Sprintf("%s = %s", fk, val))
+		}
+		return fmt.Sprintf("%s(%s[%d:%d:%d])", b.typeStr(t), bk, o, o+n, o+c)
+	case *types.Struct:
+		var fs []string
+		for i := 0; i < u.NumFields(); i++ {
+			f := u.Field(i)
+			lo, hi := b.e.fieldRange(u, i)
+			if f.Name() == "_" || foreignOpaque(f.Type(), b.pkg) {
+				continue
+			}
+			if !f.Exported() && f.Pkg() != b.pkg {
+				continue
+			}
+			switch f.Type().Underlying().(type) {
+			case *types.Map, *types.Chan, *types.Signature, *types.Interface:
+				continue // zero value
+			}
+			fs = append(fs, f.Name()+": "+b.value(f.Type(), leaves[lo:hi], depth))
+		}
+		return b.typeStr(t) + "{" + strings.Join(fs, ", ") + "}"
+	case *types.Array:
+		if u.Len() > 64 {
+			return b.fail("array of %d elements", u.Len())
+		}
+		var es []string
+		for i := int64(0); i < u.Len(); i++ {
+			var sub []string
+			for _, l := range leaves {
+				sub = append(sub, fmt.Sprintf("(select %s (_ bv%d 64))", l, i))
+			}
+			es = append(es, b.value(u.Elem(), sub, depth))
+		}
+		return b.typeStr(t) + "{" + strings.Join(es, ", ") + "}"
+	case *types.Map, *types.Chan, *types.Signature, *types.Interface:
+		return "(" + b.typeStr(t) + ")(nil)"
+	}
+	return b.fail("unsupported type %s", t)
+}
+
+// ---- clause analysis ------------------------------------------------------------------
+
+// polarityOK reports whether, in expression x evaluated at polarity pos, every gcForall
+// occurs positively and every gcExists negatively (bounded evaluation is then sound
+// for reporting the clause false).
+func (e *Engine) polarityOK(x ast.Expr, pos bool, specs map[string]ast.Expr, depth int) bool {
+	hasQ := func(n ast.Node) bool {
+		q := false
+		ast.Inspect(n, func(n ast.Node) bool {
+			if c, ok := n.(*ast.CallExpr); ok {
+				if id, ok := c.Fun.(*ast.Ident); ok {
+					if id.Name == "gcForall" || id.Name == "gcExists" {
+						q = true
+					} else if b, ok := specs[id.Name]; ok && depth < 4 {
+						if !e.polarityOK(b, true, specs, depth+1) || !e.polarityOK(b, false, specs, depth+1) {
+							q = true
+						}
+					}
+				}
+			}
+			return !q
+		})
+		return q
+	}
+	switch v := x.(type) {
+	case *ast.ParenExpr:
+		return e.polarityOK(v.X, pos, specs, depth)
+	case *ast.UnaryExpr:
+		if v.Op == token.NOT {
+			return e.polarityOK(v.X, !pos, specs, depth)
+		}
+	case *ast.BinaryExpr:
+		if v.Op == token.LAND || v.Op == token.LOR {
+			return e.polarityOK(v.X, pos, specs, depth) && e.polarityOK(v.Y, pos, specs, depth)
+		}
+	case *ast.CallExpr:
+		if id, ok := v.Fun.(*ast.Ident); ok {
+			switch id.Name {
+			case "gcImplies":
+				return e.polarityOK(v.Args[0], !pos, specs, depth) && e.polarityOK(v.Args[1], pos, specs, depth)
+			case "gcForall", "gcExists":
+				if (id.Name == "gcForall") != pos {
+					return false
+				}
+				if fl, ok := v.Args[0].(*ast.FuncLit); ok && len(fl.Body.List) == 1 {
+					if rs, ok := fl.Body.List[0].(*ast.ReturnStmt); ok && len(rs.Results) == 1 {
+						return e.polarityOK(rs.Results[0], pos, specs, depth)
+					}
+				}
+				return false
+			default:
+				if b, ok := specs[id.Name]; ok && depth < 4 {
+					for _, a := range v.Args {
+						if hasQ(a) {
+							return false
+						}
+					}
+					return e.polarityOK(b, pos, specs, depth+1)
+				}
+			}
+		}
+	}
+	return !hasQ(x)
+}
+
+type rpClause struct {
+	decl *ast.FuncDecl
+	body ast.Expr
+}
+
+func parseGen(src string) (*token.FileSet, *ast.File, error) {
+	fset := token.NewFileSet()
+	f, err := parser.ParseFile(fset, "gen.go", src, parser.ParseComments)
+	return fset, f, err
+}
+
+func exprString(fset *token.FileSet, x ast.Node) string {
+	var buf bytes.Buffer
+	printer.Fprint(&buf, fset, x)
+	return buf.String()
+}
+
+func singleReturn(fd *ast.FuncDecl) ast.Expr {
+	if fd.Body == nil || len(fd.Body.List) != 1 {
+		return nil
+	}
+	if rs, ok := fd.Body.List[0].(*ast.ReturnStmt); ok && len(rs.Results) == 1 {
+		return rs.Results[0]
+	}
 	return nil
 }
 
-func runGoReplay(repo, verif string, rec map[string]interface{}) (string, bool) { return "", false }
+// ---- the replay ------------------------------------------------------------------------
 
-func parseModel(s string) map[string]string { return map[string]string{"raw": s} }
+func buildGoReplay(e *Engine, verif, prop string, r *FuncResult, o *Obl, rec map[string]interface{}) *goReplay {
+	why := func(f string, a ...interface{}) *goReplay {
+		rec["replay_unsupported"] = fmt.Sprintf(f, a...)
+		return nil
+	}
+	fi := e.infos[r.Key]
+	fn := e.fnOf[r.Key]
+	if fi == nil || fn == nil || fi.Obj == nil || r.VC == nil {
+		return why("no function information")
+	}
+	if fi.TParams != "" || fi.Lit != nil || strings.Contains(r.Key, "[GOARCH=") {
+		return why("generic functions, function literals and other-architecture builds have no executable replay")
+	}
+	i := strings.Index(o.Name, "#")
+	cls := baseName(o.Name[i+1:])
+	kind := ""
+	switch {
+	case strings.HasPrefix(cls, "ensures"):
+		kind = "ensures"
+	case strings.HasPrefix(cls, "index:"), strings.HasPrefix(cls, "slice:"), strings.HasPrefix(cls, "nil:"), strings.HasPrefix(cls, "divzero"), strings.HasPrefix(cls, "makeslice"), strings.HasPrefix(cls, "nilmap"), strings.HasPrefix(cls, "nopanic"), strings.HasPrefix(cls, "panic"):
+		kind = "panic"
+	default:
+		return why("obligation class %q has no executable replay (only ensures clauses and no-panic obligations do)", cls)
+	}
+	mm := reScriptPath.FindStringSubmatch(o.Output)
+	if mm == nil {
+		return why("solver script not kept")
+	}
+	script, err := os.ReadFile(mm[1])
+	if err != nil {
+		return why("solver script not readable")
+	}
+	sig := fi.Obj.Type().(*types.Signature)
+	pkg := fi.Obj.Pkg()
+	// ---- the clause
+	fset, gf, err := parseGen(e.genSrc[fi.C.Pkg])
+	if err != nil {
+		return why("generated clause file does not parse: %v", err)
+	}
+	decls := map[string]*ast.FuncDecl{}
+	specs := map[string]ast.Expr{}
+	for _, d := range gf.Decls {
+		if fd, ok := d.(*ast.FuncDecl); ok {
+			decls[fd.Name.Name] = fd
+			if !strings.HasPrefix(fd.Name.Name, "gc_") && !strings.HasPrefix(fd.Name.Name, "gc") {
+				if b := singleReturn(fd); b != nil {
+					specs[fd.Name.Name] = b
+				}
+			}
+		}
+	}
+	for n, fd := range decls {
+		if strings.HasPrefix(n, "Gc") || (!strings.HasPrefix(n, "gc")) {
+			if b := singleReturn(fd); b != nil {
+				specs[n] = b
+			}
+		}
+	}
+	var clause *Clause
+	if kind == "ensures" {
+		lbl := cls[strings.Index(cls, ":")+1:]
+		if k := strings.LastIndex(lbl, "."); k > 0 {
+			if _, err := fmt.Sscanf(lbl[k+1:], "%d", new(int)); err == nil {
+				lbl = lbl[:k]
+			}
+		}
+		for ci, c := range fi.C.Ensures {
+			if clauseLabel(c, ci) == lbl {
+				clause = c
+			}
+		}
+		if clause == nil {
+			return why("ensures clause %q not found", lbl)
+		}
+		fd := decls[clause.GoName]
+		if fd == nil || singleReturn(fd) == nil {
+			return why("clause function %s not found", clause.GoName)
+		}
+		if !e.polarityOK(singleReturn(fd), true, specs, 0) {
+			return why("the clause has a quantifier in a position where bounded evaluation could report a false violation")
+		}
+	}
+	// ---- inputs from a small model
+	m := newRpModel(string(script), false)
+	if _, ok := m.get([]string{"alloc0"}); !ok {
+		// the solvers could not produce a model of the full script (quantifiers): take a
+		// candidate from its quantifier-free weakening instead.  A candidate proves nothing
+		// by itself; it counts only if the real code then violates the clause on it.
+		m = newRpModel(string(script), true)
+		rec["replay_note"] = "candidate input taken from the quantifier-free weakening of the obligation; validated only by running the real code"
+	}
+	b := &rpBuilder{e: e, m: m, pkg: pkg, ptrs: map[string]string{}, backs: map[string]string{}, filled: map[string]bool{}, dom: map[int64]bool{}}
+	var small []string
+	for _, in := range r.VC.inputs {
+		if strings.HasSuffix(in.Desc, ".len") {
+			small = append(small, fmt.Sprintf("(assert (bvsle %s (_ bv24 64)))", in.Name))
+		}
+		if strings.HasSuffix(in.Desc, ".off") {
+			small = append(small, fmt.Sprintf("(assert (bvsle %s (_ bv64 64)))", in.Name))
+		}
+	}
+	// pointee slices one level down
+	for _, p := range fn.Params {
+		if pt, ok := p.Type().Underlying().(*types.Pointer); ok {
+			tk := typeKey(pt.Elem())
+			for j, li := range e.layoutOf(pt.Elem()).L {
+				if strings.HasSuffix(li.Path, ".len") || strings.HasSuffix(li.Path, ".off") {
+					sym := entrySym('O', tk, j)
+					m.declare(sym, "(Array Int "+li.Sort+")")
+					lim := 24
+					if strings.HasSuffix(li.Path, ".off") {
+						lim = 64
+					}
+					small = append(small, fmt.Sprintf("(assert (bvsle (select %s %s) (_ bv%d 64)))", sym, quoteSym("in_"+p.Name()), lim))
+				}
+			}
+		}
+	}
+	probe := []string{"alloc0"}
+	if _, ok := m.get(probe, small...); !ok {
+		if _, ok := m.get(probe); !ok {
+			return why("the solver did not reproduce a model for the refuted obligation (%s)", strings.Join(m.log, "; "))
+		}
+		rec["replay_note"] = "no model with small slices exists; using the solver's model as is"
+	}
+	var argExprs []string
+	pi := 0
+	for _, p := range fn.Params {
+		ls := e.layoutOf(p.Type()).L
+		var leaves []string
+		for _, li := range ls {
+			leaves = append(leaves, quoteSym("in_"+p.Name()+li.Path))
+		}
+		argExprs = append(argExprs, b.value(p.Type(), leaves, 3))
+		pi++
+	}
+	if b.bad != "" {
+		return why("inputs cannot be built from the model: %s", b.bad)
+	}
+	// ---- the test
+	var names, typs []string
+	for _, p := range fn.Params {
+		names = append(names, p.Name())
+		typs = append(typs, b.typeStr(p.Type()))
+	}
+	for k := range names {
+		if names[k] == "_" || names[k] == "" {
+			names[k] = fmt.Sprintf("arg%d", k)
+		}
+	}
+	var sb strings.Builder
+	pkgDir := fi.C.Pkg
+	fmt.Fprintf(&sb, "package %s\n\nimport (\n\t\"fmt\"\n\t\"testing\"\n)\n\n", pkg.Name())
+	fmt.Fprintf(&sb, "// replay of %s\n", shortObl(o.Name))
+	fmt.Fprintf(&sb, "func rpMake() (%s) {\n", strings.Join(typs, ", "))
+	for _, s := range b.stmts {
+		fmt.Fprintf(&sb, "\t%s\n", s)
+	}
+	fmt.Fprintf(&sb, "\treturn %s\n}\n\n", strings.Join(argExprs, ", "))
+	var dom []int64
+	for v := int64(-2); v <= 40; v++ {
+		b.dom[v] = true
+	}
+	for v := range b.dom {
+		dom = append(dom, v)
+	}
+	sort.Slice(dom, func(i, j int) bool { return dom[i] < dom[j] })
+	var ds []string
+	for _, v := range dom {
+		ds = append(ds, fmt.Sprint(v))
+	}
+	fmt.Fprintf(&sb, "func TestGovcReplay(t *testing.T) {\n\trpDomain = []int64{%s}\n", strings.Join(ds, ", "))
+	var olds []string
+	for _, n := range names {
+		olds = append(olds, n+"__old")
+	}
+	if len(names) > 0 {
+		fmt.Fprintf(&sb, "\t%s := rpMake()\n\t%s := rpMake()\n", strings.Join(names, ", "), strings.Join(olds, ", "))
+		for k := range names {
+			fmt.Fprintf(&sb, "\t_, _ = %s, %s\n", names[k], olds[k])
+		}
+	}
+	// requires must hold on the constructed input
+	for _, c := range fi.C.Requires {
+		fd := decls[c.GoName]
+		if fd == nil {
+			continue
+		}
+		var as []string
+		okc := true
+		for _, f := range fd.Type.Params.List {
+			for _, n := range f.Names {
+				found := false
+				for _, pn := range names {
+					if pn == n.Name {
+						found = true
+					}
+				}
+				if !found {
+					okc = false
+				}
+				as = append(as, n.Name)
+			}
+		}
+		if !okc {
+			continue
+		}
+		fmt.Fprintf(&sb, "\tif ok := func() (ok bool) { defer func() { if recover() != nil { ok = true } }(); return %s(%s) }(); !ok {\n\t\tfmt.Println(\"GOVC-REPLAY: precondition false on the constructed input (%s); the model does not transfer\")\n\t\treturn\n\t}\n", c.GoName, strings.Join(as, ", "), strings.ReplaceAll(c.Expr, `"`, `'`))
+	}
+	// the call
+	nres := sig.Results().Len()
+	var resNames []string
+	for k := 0; k < nres; k++ {
+		resNames = append(resNames, fmt.Sprintf("res%d", k))
+		fmt.Fprintf(&sb, "\tvar res%d %s\n\t_ = res%d\n", k, b.typeStr(sig.Results().At(k).Type()), k)
+	}
+	call := ""
+	if sig.Recv() != nil {
+		call = fmt.Sprintf("%s.%s(%s)", names[0], fi.Obj.Name(), strings.Join(names[1:], ", "))
+	} else {
+		call = fmt.Sprintf("%s(%s)", fi.Obj.Name(), strings.Join(names, ", "))
+	}
+	if sig.Variadic() {
+		return why("variadic function")
+	}
+	if nres > 0 {
+		call = strings.Join(resNames, ", ") + " = " + call
+	}
+	fmt.Fprintf(&sb, "\tpanicked := func() (p any) { defer func() { p = recover() }(); %s; return nil }()\n", call)
+	if kind == "panic" {
+		fmt.Fprintf(&sb, "\tif panicked != nil {\n\t\tfmt.Printf(\"GOVC-REPLAY: VIOLATED: the real code panics on this input: %%v\\n\", panicked)\n\t} else {\n\t\tfmt.Println(\"GOVC-REPLAY: no panic on this input\")\n\t}\n}\n")
+	} else {
+		fmt.Fprintf(&sb, "\tif panicked != nil {\n\t\tfmt.Printf(\"GOVC-REPLAY: the real code panicked before the postcondition could be evaluated: %%v\\n\", panicked)\n\t\treturn\n\t}\n")
+		// clause with old-state parameters
+		fd := decls[clause.GoName]
+		body := singleReturn(fd)
+		isParam := map[string]bool{}
+		for _, n := range names {
+			isParam[n] = true
+		}
+		var rewrite func(n ast.Node, inOld bool) ast.Node
+		_ = rewrite
+		// rename parameters inside gcOld(...)
+		ast.Inspect(body, func(n ast.Node) bool {
+			c, ok := n.(*ast.CallExpr)
+			if !ok {
+				return true
+			}
+			if id, ok := c.Fun.(*ast.Ident); ok && id.Name == "gcOld" && len(c.Args) == 1 {
+				ast.Inspect(c.Args[0], func(m ast.Node) bool {
+					if fl, ok := m.(*ast.FuncLit); ok {
+						// bound variables shadow nothing we rename unless they share a name; keep simple
+						_ = fl
+					}
+					if id, ok := m.(*ast.Ident); ok && isParam[id.Name] {
+						id.Name = id.Name + "__old"
+					}
+					return true
+				})
+			}
+			return true
+		})
+		var ps []string
+		var as []string
+		okc := true
+		ri := 0
+		for _, f := range fd.Type.Params.List {
+			for _, n := range f.Names {
+				ps = append(ps, n.Name+" "+exprString(fset, f.Type))
+				if isParam[n.Name] || strings.HasSuffix(n.Name, "__old") && isParam[strings.TrimSuffix(n.Name, "__old")] {
+					as = append(as, strings.TrimSuffix(n.Name, "__old"))
+				} else if ri < nres {
+					as = append(as, resNames[ri])
+					ri++
+				} else {
+					okc = false
+				}
+			}
+		}
+		if !okc {
+			return why("the clause refers to values the replay cannot supply")
+		}
+		for k, n := range names {
+			ps = append(ps, n+"__old "+typs[k])
+			as = append(as, olds[k])
+		}
+		fmt.Fprintf(&sb, "\tholds, unsupported := func() (h bool, u any) { defer func() { u = recover() }(); return rpClause(%s), nil }()\n", strings.Join(as, ", "))
+		fmt.Fprintf(&sb, "\tswitch {\n\tcase unsupported != nil:\n\t\tfmt.Printf(\"GOVC-REPLAY: clause not evaluable: %%v\\n\", unsupported)\n\tcase !holds:\n\t\tfmt.Printf(\"GOVC-REPLAY: VIOLATED: postcondition false on the real code's result (%s)\\n\")\n\tdefault:\n\t\tfmt.Println(\"GOVC-REPLAY: postcondition holds on this input\")\n\t}\n}\n\n", strings.ReplaceAll(strings.ReplaceAll(clause.Expr, `"`, `'`), "%", "%%"))
+		fmt.Fprintf(&sb, "func rpClause(%s) bool { return %s }\n", strings.Join(ps, ", "), exprString(fset, body))
+	}
+	// generated clause files (every package: specs are shared across packages) with the executable prelude
+	gens := map[string]interface{}{}
+	for d, gen := range e.genSrc {
+		k1 := strings.Index(gen, "// ---- contract prelude")
+		k2 := strings.Index(gen, "// ---- end of contract prelude ----")
+		if k1 < 0 || k2 < 0 {
+			return why("generated file of %s has an unexpected layout", d)
+		}
+		gens[d] = gen[:k1] + rpPrelude + gen[k2:]
+	}
+	rec["go_test"] = sb.String()
+	rec["go_gen"] = gens
+	rec["go_pkg_dir"] = pkgDir
+	rec["replay_cmd"] = "govc replay <this file>"
+	return &goReplay{repo: e.repo, verif: verif}
+}
+
+func runGoReplay(repo, verif string, rec map[string]interface{}) (string, bool) {
+	test, _ := rec["go_test"].(string)
+	gens, _ := rec["go_gen"].(map[string]interface{})
+	dir, _ := rec["go_pkg_dir"].(string)
+	if test == "" {
+		return "no executable replay", false
+	}
+	tmp, err := os.MkdirTemp("", "govc-replay")
+	if err != nil {
+		return err.Error(), false
+	}
+	defer os.RemoveAll(tmp)
+	tf := filepath.Join(tmp, "t_test.go")
+	os.WriteFile(tf, []byte(test), 0o644)
+	repl := map[string]string{filepath.Join(repo, dir, "zz_govc_replay_test.go"): tf}
+	gi := 0
+	for d, g := range gens {
+		gi++
+		gfp := filepath.Join(tmp, fmt.Sprintf("g%d.go", gi))
+		os.WriteFile(gfp, []byte(g.(string)), 0o644)
+		repl[filepath.Join(repo, d, "zz_govc_replay_gen.go")] = gfp
+	}
+	ov := map[string]map[string]string{"Replace": repl}
+	js, _ := json.Marshal(ov)
+	ovf := filepath.Join(tmp, "ov.json")
+	os.WriteFile(ovf, js, 0o644)
+	env := toolEnv("")
+	cmd := exec.Command("go", "test", "-overlay", ovf, "-vet=off", "-v", "-count=1", "-timeout", "60s", "-run", "^TestGovcReplay$", "./"+dir)
+	cmd.Dir = repo
+	cmd.Env = env
+	done := make(chan struct{})
+	var out []byte
+	go func() { out, _ = cmd.CombinedOutput(); close(done) }()
+	select {
+	case <-done:
+	case <-time.After(180 * time.Second):
+		if cmd.Process != nil {
+			cmd.Process.Kill()
+		}
+		<-done
+	}
+	s := string(out)
+	return s, strings.Contains(s, "GOVC-REPLAY: VIOLATED")
+}
+
+func parseModel(s string) map[string]string {
+	out := map[string]string{}
+	i := strings.Index(s, "(")
+	if i < 0 {
+		return map[string]string{"raw": s}
+	}
+	root := parseSx(s[i:])
+	if root == nil {
+		return map[string]string{"raw": s}
+	}
+	body := s[i:]
+	for _, k := range root.kids {
+		if len(k.kids) == 2 {
+			out[body[k.kids[0].s:k.kids[0].e]] = body[k.kids[1].s:k.kids[1].e]
+		}
+	}
+	return out
+}
+
+// toolEnv is the environment of the repository's toolchain (offline).
+func toolEnv(goarch string) []string {
+	const tc = "/root/go/pkg/mod/golang.org/toolchain@v0.0.1-go1.25.0.linux-amd64/bin"
+	if _, err := os.Stat(tc); err == nil && !strings.Contains(os.Getenv("PATH"), tc) {
+		os.Setenv("PATH", tc+":"+os.Getenv("PATH"))
+	}
+	for k, v := range map[string]string{"GOTOOLCHAIN": "local", "GOFLAGS": "-mod=mod", "GOPROXY": "off", "GOSUMDB": "off"} {
+		os.Setenv(k, v)
+	}
+	env := os.Environ()
+	if goarch != "" {
+		env = append(env, "GOARCH="+goarch)
+	}
+	return env
+}
 
 func selftest(repo, verif string, args []string, tier string) error { return nil }
